@@ -1,4 +1,4 @@
-from props.smtpcommon import nontrivial  # noqa: F401
+from props.smtpcommon import post, nontrivial  # noqa: F401
 
 ID = "C17"
 LEVEL = "proof"
